@@ -38,6 +38,7 @@ COMMENTS = ["?", "'", "`", "-", " ", "#", "/", "*", "\n"]
 # other quote character inside), comment openers / closers, plain tokens
 FRAGS = ["?", "'q'", '"q"', "`c`", "'\\''", "'\\\\'", '"\\\\"', "''''", "'\"'", "''", " -- ", "#", "/*", "*/", "\n",
          " and c = ", "a", "'", "\\"]
+CORE = [w for w in FRAGS if w not in ('"q"', '"\\\\"', "''", "#", " and c = ", "a", "'", "\\")]
 PREFIX = "select a from t where b = "
 
 XCHECK = ["parser/sqllex_test.go"]
@@ -71,7 +72,8 @@ def run(ctx):
     plans = [dict(words=FULL, maxlen=4, sanity=True, label="full alphabet"),
              dict(words=STRINGS, maxlen=7, label="quotes and backslashes"),
              dict(words=COMMENTS, maxlen=5, label="comments and back-quotes"),
-             dict(words=FRAGS, maxlen=28, maxwords=4, prefix=PREFIX, label="fragments spliced into a statement")]
+             dict(words=FRAGS, maxlen=24, maxwords=3, prefix=PREFIX, label="fragments spliced into a statement"),
+             dict(words=CORE, maxlen=28, maxwords=4, prefix=PREFIX, label="literal forms and comments spliced into a statement")]
     if thorough:
         plans = [dict(words=FULL, maxlen=5, label="full alphabet"),
                  dict(words=FULL, maxlen=3, sanity=True, label="full alphabet, automaton sanity invariants"),
